@@ -99,6 +99,8 @@ pub const KF_BOX_LEAK: &str = "C12-boxed-variant-never-released";
 pub const KF_MAKER_LEAK: &str = "C12-closure-from-maker-call-leaks";
 /// a lambda passed as an argument to a function is never released (known finding): switch
 pub const KF_ARG_LEAK: &str = "C12-closure-argument-leaks";
+/// the closure that wraps a NAMED function at `f@t` is never released after the task has run: switch
+pub const KF_TASK_LEAK: &str = "C12-scheduled-function-closure-never-released";
 
 impl Prop for C12 {
     fn id(&self) -> &'static str {
@@ -112,14 +114,21 @@ impl Prop for C12 {
     }
     fn run(&self, space: &str, _index: u64, g: &mut Gen, cx: &Cx) -> CaseResult {
         if space == "unit" {
-            let (src, sched) = crate::gens::textgen::unit_closures(g);
+            let ((src, sched), named) = crate::gens::textgen::unit_closures_with(g, !cx.excluded(KF_TASK_LEAK));
             let inputs = gen_inputs(g);
             let n = *g.pick(&[32u64, 16, 64]);
             let mut classes = vec!["mode:unit-frames".to_string()];
             if sched {
                 classes.push("unit:scheduled-task".into());
             }
-            return finish(&src, &inputs, n, classes, true, cx);
+            if named {
+                classes.push("unit:scheduled-named-function".into());
+            }
+            let mut r = finish(&src, &inputs, n, classes, true, cx);
+            if cx.excluded(KF_TASK_LEAK) {
+                r.count(&format!("generator_switch_off:{KF_TASK_LEAK}"), 1);
+            }
+            return r;
         }
         if space == "sum" {
             let mut scfg = crate::gens::sumgen::SumCfg::default();
